@@ -57,6 +57,7 @@ fn run_sched(args: &[String]) -> i32 {
     let mut configs_skipped_budget = 0usize;
     let mut max_bound_full: BTreeMap<String, usize> = BTreeMap::new();
     let mut noprogress_polls = 0usize;
+    let mut class_counts: BTreeMap<String, usize> = BTreeMap::new();
 
     for (n, (fam, idx, cfg)) in configs.iter().enumerate() {
         if (n + seed) % sn != si {
@@ -77,7 +78,10 @@ fn run_sched(args: &[String]) -> i32 {
             let vs = oracles::check_all(cfg, tr);
             for v in vs {
                 if v.prop == prop {
-                    if found_here < 1 && violations.len() < 200 {
+                    let class = format!("{}|{:?}", v.key, findings::explain(cfg, tr, &v));
+                    let seen = class_counts.entry(class).or_insert(0usize);
+                    if found_here < 1 && *seen < 6 {
+                        *seen += 1;
                         // determinism: replay the failing schedule twice more
                         let sched = tr.schedule();
                         let t2 = exec::execute(cfg, &exec::stream_subject, &sched);
@@ -177,6 +181,7 @@ fn run_pipe(args: &[String]) -> i32 {
     let mut samples: Vec<serde_json::Value> = Vec::new();
     let (mut done, mut skipped, mut capped) = (0usize, 0usize, 0usize);
     let mut verdicts = [0usize; 2];
+    let mut class_counts: BTreeMap<String, usize> = BTreeMap::new();
     for (idx, cfg) in configs.iter().enumerate() {
         if (idx + seed) % sn != si {
             continue;
@@ -199,7 +204,11 @@ fn run_pipe(args: &[String]) -> i32 {
                     verdicts[usize::from(f)] += 1;
                 }
                 for v in pipe::check(cfg, *stack, tr, &res) {
-                    if found_here < 1 && violations.len() < 400 {
+                    let finding_now = findings::explain_pipe(cfg, tr, &v, *stack);
+                    let class = format!("{}|{:?}", v.key, finding_now);
+                    let seen = class_counts.entry(class).or_insert(0usize);
+                    if found_here < 1 && *seen < 6 {
+                        *seen += 1;
                         let sched = tr.schedule();
                         let t2 = exec::execute(cfg, &make, &sched);
                         let r2 = pipe::take_result();
@@ -280,6 +289,7 @@ fn run_trace(args: &[String]) -> i32 {
     let (mut done, mut skipped, mut capped) = (0usize, 0usize, 0usize);
     let mut logs_checked = 0usize;
     let mut noprogress_polls = 0usize;
+    let mut class_counts: BTreeMap<String, usize> = BTreeMap::new();
     for (idx, cfg) in configs.iter().enumerate() {
         if (idx + seed) % sn != si {
             continue;
@@ -304,7 +314,10 @@ fn run_trace(args: &[String]) -> i32 {
                 if v.prop != "C20" && v.prop != "C04" && v.prop != "C10" {
                     continue;
                 }
-                if !found.contains(&v.key) && violations.len() < 200 {
+                let class = format!("{}|{:?}", v.key, trace::explain(&v));
+                let seen = class_counts.entry(class).or_insert(0usize);
+                if !found.contains(&v.key) && *seen < 6 {
+                    *seen += 1;
                     found.push(v.key.clone());
                     let sched = tr.schedule();
                     let t2 = exec::execute(cfg, &trace::subject, &sched);
